@@ -14,8 +14,25 @@ RULE = c01.RULE + "; 30% of partial units carry a count five times the baseline 
 
 
 def explore(run, driver, budget):
+    from harness.props import c15
+
     K.explore(run, driver, budget, PROP, RULE, pi_cycle=("nonparametric", "gaussian", "nonparametric", "gaussian", "bootstrap"))
+    # gaussian aggregate floor on structures with fallback groups sorted before own-model groups and high partial counts
+    c15.floor_stage(run, {"quick": 60, "thorough": 3000, "search": 400}[budget], PROP)
 
 
 def replay(run, driver, payload):
+    if payload.get("replay_case") is None and isinstance(payload.get("input"), dict) and "agg" in payload["input"]:
+        from harness.props import c15
+
+        c = payload["input"]
+        impl, _ = c15.impl_run(c)
+        run.case(c, True)
+        saved = c15.CORPUS[:]
+        c15.CORPUS[:] = [c]
+        try:
+            c15.floor_stage(run, 0, PROP)
+        finally:
+            c15.CORPUS[:] = saved
+        return
     K.replay(run, driver, payload, PROP)
